@@ -150,8 +150,12 @@ class FrameCollector:
         f_locals = frame.f_locals
         _self = f_locals.get('self', None)
         class_name = None
-        if _self is not None and hasattr(_self, '__class__'):
-            class_name = _self.__class__.__name__
+        try:
+            if _self is not None and hasattr(_self, '__class__'):
+                class_name = _self.__class__.__name__
+        except BaseException:
+            # reading attributes of an application object can run its code, this must not cost us the snapshot
+            class_name = None
 
         var_ids = []
         # only process vars if we are under the time limit
